@@ -7,7 +7,7 @@ MANIFEST.json.
 
 PROPS = {}
 NOT_APPLICABLE = {}
-HOOK_COMMITS = ["c94b8c9", "c3c8497", "5a76809", "8c6f5e6", "6f05708"]
+HOOK_COMMITS = ["c94b8c9", "c3c8497", "5a76809", "8c6f5e6", "6f05708", "4b3aea6"]
 
 
 def prop(pid, **kw):
@@ -386,6 +386,60 @@ prop("C17",
                 "and not judged. Programs that share one connection between several readers are not generated in bubbles.",
      technique="race detector + linearizability checking of recorded histories (porcupine) + termination monitors under schedule perturbation",
      assumptions=["porcupine v1.3.0", "go1.26 testing/synctest virtual time for the transport programs"])
+
+prop("C05",
+     level="exploration",
+     parts=[{"engine": "login"}],
+     floor={"quick": 2000, "thorough": 100000},
+     child_timeout={"quick": 600, "thorough": 7200},
+     rule="(a) HopServer.AuthorizeKey(user, key) on the real server object over an error-injecting fs.FS: authorized_keys files "
+          "generated from a grammar (valid entries for the key, for other keys, padded with white space; blank lines; comments; "
+          "garbage; truncated base64; wrong prefixes; 31/33-byte keys; trailing comment / leading option; url-safe, unpadded and "
+          "hex encodings; 70 kB lines; NUL bytes; two keys on a line; LF/CRLF; no final newline; short reads), wrapped into "
+          "file-level conditions (missing, empty, a directory, Open fails, Read fails after k bytes), the key well formed in "
+          "another user's file, unknown / empty / path-like user names. Oracle: a reference reader written from the statement "
+          "(per line: trim, exact prefix, standard base64 of exactly 32 bytes equal to the key); accepted implies listed. "
+          "(b) End to end in real time: the real HopServer on a real transport.Server over the simulated network, the harness a "
+          "raw client (transport handshake with the key, user-auth tube); histories of file rewrites, AddAuthGrant calls and "
+          "login attempts by 3 keys as known, unknown and empty users, authgrants on/off, transport gate shared with the "
+          "server's key set or open; a ledger of live grants; confirmed implies listed now or a live grant for exactly (user, "
+          "key), which is then consumed. Refusals of allowed logins are counted, not judged (failing closed). Non-trivial = a "
+          "decision on a distinct (file class, line kinds, outcome).",
+     level_text="Exploration by generated files, I/O faults and login histories against a reference reader and a grant ledger, "
+                "observing the real AuthorizeKey results and the confirmation byte a client sees.",
+     level_note="The passwd lookup, the file system and the clock are replaced at the boundaries the repository provides "
+                "(pkg/thunks, the server's fs.FS). Transport-level key pinning is C01's subject; here it is either the "
+                "server's own key set or open.",
+     technique="runtime monitoring of the real server (function boundary and client-visible bytes) against a reference reader and ledger",
+     assumptions=["C01 (the key presented is the key proven)", "thunks.LookupUser maps exactly the three known users"])
+
+prop("C07",
+     level="exploration",
+     parts=[{"engine": "login"}, {"engine": "login", "race": True, "max_cases_per_child": 12}],
+     floor={"quick": 120, "thorough": 6000},
+     child_timeout={"quick": 600, "thorough": 7200},
+     race_violation_scope=["hopserver/", "authgrants/", "authkeys/"],
+     rule="The real HopServer over a real transport.Server on the simulated network, real time, thunks.TimeNow a settable clock, "
+          "thunks.StartCmd a recorder that really starts the (harmless) command, login(1) a recording stand-in found through "
+          "PATH, probes the server may dial (TCP and unix) or must listen on (unix). Grants of every type (shell, command with "
+          "texts differing by a space, case, a trailing comment or newline; local / remote forward), with start/expiry before, "
+          "at and after the clock, for two users and two delegate keys, stored through AddAuthGrant or over the wire by a "
+          "key-admitted principal session. The delegate logs in and sends a sequence of raw requests: exec with the same / "
+          "another command, repeated, with and without pty, a shell, two identical requests at once, local and remote forward "
+          "control tubes and data tubes, an intent for itself on an authgrant tube, window-size and unknown tubes, the clock "
+          "advanced in between; then it logs in again and another key tries. Oracle: every action that started (confirmation "
+          "byte, recorded process start, server dialled / listened, grant stored) must be assignable its own grant for that "
+          "user and key of the right type and identical command text that is effective and unexpired at that clock value "
+          "(bipartite matching, liberal at both time boundaries); nothing authorizes issuing grants; after the login the "
+          "server's grant map holds nothing for (user, key); the same key cannot log in again, another key never. 14 directed "
+          "histories plus seeded ones. The race build runs the same histories under the race detector (scope: hopserver, "
+          "authgrants, authkeys frames). Non-trivial = a history played to the end with the oracle evaluated.",
+     level_text="Exploration by directed and generated grant/request histories against a reference ledger with a matching "
+                "oracle, observing process starts, dials, listeners and stored grants at the host boundary.",
+     level_note="Sessions admitted by a listed key are not limited by grants and serve as principals and controls. Whether a "
+                "shell grant covers a command run under a pty is not settled by the statement: the oracle accepts it.",
+     technique="runtime monitoring of the real server at its host boundary (process start, dial, listen, stored grants) + race detector",
+     assumptions=["C05 (admission)", "the recorder and the stand-in login observe every process the server starts"])
 
 prop("C06",
      level="exploration",
